@@ -94,6 +94,7 @@ def _get_target_times(
         if not merged or merged[-1] - t > 2e-12 * duration:
             merged.append(t)
     merged[-1] = target_times[0]
+    merged[0] = duration  # floor(duration / dt) * dt / duration * duration can exceed it
     return merged[::-1]
 
 
